@@ -98,7 +98,7 @@ VARIANTS = {
         bin="release/verif-shim",
         tdir="release",
         wrap=["valgrind", "--quiet", "--error-exitcode=97", "--leak-check=full", "--show-leak-kinds=definite",
-              "--errors-for-leak-kinds=definite", "--num-callers=40", "--track-origins=yes"],
+              "--errors-for-leak-kinds=definite", "--num-callers=40", "--track-origins=yes", "--vgdb=no"],
     ),
     # the UB / leak interpreter: no binary of its own, the worker is `cargo miri run` of the same shim (interactive protocol
     # over stdin works with isolation disabled); the build step interprets an empty script so that everything is compiled once
